@@ -53,11 +53,11 @@ PROPS = {
         assumptions=[
             "fair scheduling for the not-stuck theorems (they say: the token is there / the queues are empty, not that the OS runs the thread)",
             "join(self) consumes the handle: at most one join per coroutine (Rust ownership)",
-            "a joiner cancelled while parked inside wait() is not modelled (C09)",
+            "a joiner cancelled while blocked in wait()/join() leaves by the Cancel panic at the park (Env.abort); how the cancel reaches the parked coroutine is C09",
             "co_runs_to_end is conditional on the spmc layer completing every claim (spmc_claim_completes, C04): a stealer that over-claimed waits for the owner's next pushes",
             "a coroutine that spins on yield_now() keeps its worker's local queue non-empty, and run_queued_tasks collects the global queue only when the local one is empty: coroutines in that worker's global queue wait until the spinner stops (fairness between the two queues is not a theorem)",
         ],
-        rule="live mode on the real runtime, 1-3 workers, seeded perturbation: a coroutine that yields 0-3 times and returns / panics / is cancelled, 1-2 joiners (main, threads, coroutines) racing is_done/wait/join with the finish (non-trivial = a joiner registered its blocker: to_wake.store in the trace); family life: trees of 2-7 spawns from main / a thread / coroutines (spawn, spawn_local, Builder::id, custom stack), 0-5 yields / 1-2 ms sleeps each, parent parks until a child unparks it (non-trivial = a steal, a resume by the timer thread or nested inside another context, or a wake-up scheduled by a coroutine); distinct = SHA-1 of the canonical trace",
+        rule="live mode on the real runtime, 1-3 workers, seeded perturbation: a coroutine that yields 0-3 times and returns / panics / is cancelled, 1-2 joiners (main, threads, coroutines) racing is_done/wait/join with the finish, ~30 % with a joiner coroutine that is itself cancelled at a seeded moment while entering / blocked in wait()/join() on a long-running target (non-trivial = a joiner registered its blocker: to_wake.store in the trace); family life: trees of 2-7 spawns from main / a thread / coroutines (spawn, spawn_local, Builder::id, custom stack), 0-5 yields / 1-2 ms sleeps each, parent parks until a child unparks it (non-trivial = a steal, a resume by the timer thread or nested inside another context, or a wake-up scheduled by a coroutine); distinct = SHA-1 of the canonical trace",
     ),
     "C03": dict(
         lean_props=["MayVerif.Props.C03"],
